@@ -2,7 +2,8 @@
 import os, sys, json, time, argparse, hashlib, multiprocessing, signal, traceback, collections, threading
 
 VERIF = os.path.dirname(os.path.dirname(os.path.abspath(__file__)))
-REPO = os.environ.get('VERIF_REPO', '/repo')
+REPO = os.environ.get('VERIF_REPO', '/repo')     # overridden only to run a check against a scratch worktree (seed testing)
+OUT = os.environ.get('VERIF_OUT', VERIF)          # evidence/ and replays/ land here (default: /verif itself)
 EXIT_OK, EXIT_VIOLATION, EXIT_HARNESS = 0, 1, 3
 
 def repo_head():
@@ -56,6 +57,9 @@ class Run:
         self.cases = 0
         self.nontrivial = set()
         self.known, self.fixed = known_findings(pid)
+        import nutils
+        if not os.path.realpath(nutils.__file__).startswith(os.path.realpath(REPO) + os.sep):
+            self.harness_error(f'nutils imported from {nutils.__file__}, not from {REPO}: the check would not be deciding the working tree')
         self.counters = collections.Counter()
 
     # -- accounting
@@ -79,7 +83,7 @@ class Run:
                 self.known_hit.append(key)
                 print(f'KNOWN-FINDING: property={self.pid} {self.known[key].get("what", what)} [{key}]', flush=True)
             return
-        d = os.path.join(VERIF, 'replays', self.pid)
+        d = os.path.join(OUT, 'replays', self.pid)
         os.makedirs(d, exist_ok=True)
         name = hashlib.sha1(key.encode()).hexdigest()[:12] + '.json'
         path = os.path.join(d, name)
@@ -118,8 +122,8 @@ class Run:
         if self.harness_errors: cov['harness_errors'] = self.harness_errors[:20]
         ev = dict(property_id=self.pid, tier=self.args.tier, seed=self.args.seed, level=self.level, coverage=cov,
                   assumptions=self.assumptions, wall_s=round(wall, 2), violations=len(self.violations))
-        os.makedirs(os.path.join(VERIF, 'evidence'), exist_ok=True)
-        with open(os.path.join(VERIF, 'evidence', f'{self.pid}.json'), 'w') as f:
+        os.makedirs(os.path.join(OUT, 'evidence'), exist_ok=True)
+        with open(os.path.join(OUT, 'evidence', f'{self.pid}.json'), 'w') as f:
             json.dump(ev, f, indent=1, default=str)
         summary = f'{self.pid} tier={self.args.tier} cases={self.cases} queries={dict(self.queries)} violations={len(self.violations)} known={len(self.known_hit)} inconclusive={len(self.inconclusive)} wall={wall:.1f}s'
         print(summary, flush=True)
